@@ -317,9 +317,9 @@ class Gen:
 def gen(rng, emphasis=()):
     g = Gen(rng, emphasis)
     xml = g.document()
-    cfg = {}
+    cfg = {'loop_limit': rng.choice([1, 2, 3, 5, 10, 20, 40])}     # always small: the extracted model pays ~10 ms per pass
     if rng.chance(0.25):
-        cfg[rng.choice(['loop_limit', 'var_limit', 'depth_limit'])] = rng.choice([1, 2, 3, 5, 10, 20])
+        cfg[rng.choice(['var_limit', 'depth_limit'])] = rng.choice([1, 2, 3, 5, 10, 20])
     if rng.chance(0.2): cfg['seed'] = rng.choice([1, 7, 12345])
     if rng.chance(0.1): cfg['border'] = rng.choice([0, 12])
     if rng.chance(0.1): cfg['scale'] = rng.choice([0.5, 2.5])
